@@ -203,7 +203,7 @@ struct Report
         f << " \"max_depth_completed\": " << max_depth_completed << ",\n";
         f << " \"wall_s\": " << fmt( "%.3f", now_s() - a.start ) << ",\n";
         f << " \"classes\": [";
-        { std::size_t n = 0; for ( auto& c : classes ) { if ( n == 40 ) break; f << ( n ? "," : "" ) << "\"" << json_escape( c ) << "\""; ++n; } }
+        { std::size_t n = 0; for ( auto& c : classes ) { if ( n == 400 ) break; f << ( n ? "," : "" ) << "\"" << json_escape( c ) << "\""; ++n; } }
         f << "],\n";
         f << " \"samples\": [";
         for ( std::size_t i = 0; i != samples.size(); ++i ) f << ( i ? "," : "" ) << "\"" << json_escape( samples[ i ] ) << "\"";
